@@ -5,6 +5,7 @@ environment, on typed-generated, bounded-exhaustive and random programs under se
 the oracle is the property itself: accepted => value of that type or an inherently dynamic error."""
 import itertools
 import json
+import re
 
 from common import *
 import c09
@@ -255,7 +256,11 @@ def run(tier, seed, replay=None):
     not_wf = [s for (_, s), o in zip(lf, wf_out) if o == "NOT-WF"]
     if not_wf and not rep.violations:
         rep.broken_obligation("C08: a parsed let-free program is outside wf_lf, the hypothesis of the soundness theorems (%d programs)" % len(not_wf), not_wf[0])
-    n_diff, first = diff_stats(rep, cases, impl, mod, "C08", "")
+    # to_string of a let-bound request object prints the object's debug form, which the model renders as an opaque
+    # marker; the marker does not survive string functions applied to it (split, indexing), so such programs are
+    # compared by the implementation-only oracle above and not with the model
+    opaque_obj = re.compile(r"let\s+(\w+)\s*=\s*request\.(source|target)\s+in\s+to_string\(\1\)")
+    n_diff, first = diff_stats(rep, cases, impl, mod, "C08", "", lossy=lambda meta: bool(opaque_obj.search(meta.get("src", ""))))
     if n_diff and not rep.violations:
         rep.broken_obligation("correspondence C08: checker/evaluator model (MiluEval.v) and the milu crate differ on %d program(s)" % n_diff, json.dumps(first)[:3000])
         rep.violations[-1][1]["cases"] = [dict(kind=first["kind"], line=first["line"], meta=first["meta"])]
